@@ -150,8 +150,26 @@ func (c *Ctx) WriteReplay(v any) string {
 	return p
 }
 
+// ToolchainFailure tells a build failure of the Go toolchain itself (its build cache being removed
+// under a running build, a standard-library package that cannot be imported, the linker unable to
+// open its inputs) from a failure of the code being built.
+func ToolchainFailure(out string) bool {
+	for _, p := range []string{"/.cache/go-build/", "go-build cache", "could not import", "cannot open file"} {
+		if i := strings.Index(out, p); i >= 0 {
+			if p != "could not import" || strings.Contains(out, "no such file or directory") {
+				return true
+			}
+		}
+	}
+	return false
+}
+
 // Violation prints the VIOLATION line.
 func (c *Ctx) Violation(replay string, what string) {
+	// an unusable toolchain is a problem of the machinery's environment, never a verdict on the code
+	if ToolchainFailure(what) {
+		c.Broken("the Go toolchain failed underneath the check (build cache removed while building?): %s", what)
+	}
 	line := fmt.Sprintf("VIOLATION property=%s replay=%s", c.ID, replay)
 	fmt.Println(line)
 	if what != "" {
